@@ -350,13 +350,96 @@ pub fn eval(c: &Case) -> Vec<(String, String)> {
     v
 }
 
+/// A LinkADRReq's TX power on boards with an antenna gain and their own power ceiling: the conducted power of the
+/// next transmission is the commanded EIRP minus the gain, capped by the board - for every TXPower index, also
+/// after an earlier commanded level.
+#[derive(Clone, Debug, serde::Serialize, serde::Deserialize)]
+pub struct BoardCase {
+    pub region: String,
+    pub maxpw: u8,
+    pub gain: i8,
+    pub txp: u8,
+    pub prior_txp: Option<u8>,
+}
+
+fn eval_board_g<const PW: u8, const GAIN: i8>(c: &BoardCase) -> Vec<(String, String)> {
+    let region = c.region.as_str();
+    let mut core: NbCore<PW, GAIN> = NbCore::new(&DevCfg::abp(region));
+    let mut cycle = |core: &mut NbCore<PW, GAIN>, rx1: Option<Frame>| -> Result<(Option<i8>, Option<Vec<u8>>), String> {
+        let (mut pw, mut tx) = (None, None);
+        for m in core.apply(&Ev::Cycle { confirmed: false, port: 1, len: 1, rx1, rx2: None }) {
+            if let Resp::Panic(p) = &m.resp {
+                return Err(p.clone());
+            }
+            for op in &m.ops {
+                if let RadioOp::Tx { pw: p, bytes, .. } = op {
+                    pw = Some(*p);
+                    tx = Some(bytes.clone());
+                }
+            }
+        }
+        Ok((pw, tx))
+    };
+    let run = |core: &mut NbCore<PW, GAIN>, cycle: &mut dyn FnMut(&mut NbCore<PW, GAIN>, Option<Frame>) -> Result<(Option<i8>, Option<Vec<u8>>), String>| -> Result<Vec<(String, String)>, String> {
+        let mut v = vec![];
+        let (mut prev, _) = cycle(core, None)?;
+        let mut txps = vec![];
+        txps.extend(c.prior_txp);
+        txps.push(c.txp);
+        for (k, txp) in txps.iter().enumerate() {
+            cycle(core, Some(down(&cmds::link_adr(15, *txp, 0x00FF, 6, 1, false).bytes, false)))?;
+            let (pw, tx) = cycle(core, None)?;
+            let Some(tx) = tx else { return Ok(v) };
+            let Ok(ans) = uplink_answers(&tx) else { return Ok(v) };
+            let Some(status) = ans.iter().find(|a| a.0 == 0x03).and_then(|a| a.1.first().copied()) else { return Ok(v) };
+            let want: Vec<i16> = if status & 7 == 7 && *txp != 15 {
+                refmac::tx_power_values(region, *txp).into_iter().flatten().map(|e| (e as i16 - GAIN as i16).min(PW as i16)).collect()
+            } else {
+                prev.iter().map(|p| *p as i16).collect()
+            };
+            if k + 1 == txps.len()
+                && !want.is_empty()
+                && let Some(p) = pw
+                && !want.contains(&(p as i16))
+            {
+                let kind = if status & 7 == 7 && *txp != 15 { "acknowledged-tx-power-not-in-effect" } else { "tx-power-changed-without-acknowledged-command" };
+                v.push((
+                    format!("C08|{kind}|board"),
+                    format!("{region}, board maximum {PW} dBm, antenna gain {GAIN} dBi: LinkADRReq TXPower {txp} (after {:?}) answered {status:#04x}; the next uplink asks the radio for {p} dBm, expected {want:?} dBm (before: {prev:?})", c.prior_txp),
+                ));
+            }
+            prev = pw;
+        }
+        Ok(v)
+    };
+    match run(&mut core, &mut cycle) {
+        Ok(v) => v,
+        Err(p) => vec![(format!("C08|nb|panic|{}", panic_site(&p)), p)],
+    }
+}
+
+pub fn eval_board(c: &BoardCase) -> Vec<(String, String)> {
+    match (c.maxpw, c.gain) {
+        (14, 3) => eval_board_g::<14, 3>(c),
+        (14, 6) => eval_board_g::<14, 6>(c),
+        (22, -3) => eval_board_g::<22, -3>(c),
+        (30, 2) => eval_board_g::<30, 2>(c),
+        _ => eval_board_g::<10, 0>(c),
+    }
+}
+
 fn handled_cmd(c: &Cmd) -> bool {
     !c.bytes.is_empty() && HANDLED.contains(&c.bytes[0])
 }
 
 pub fn run(tier: Tier, replay: Option<&str>) {
     if let Some(path) = replay {
-        let c: Case = serde_json::from_value(load_case(path)).expect("case");
+        let cj = load_case(path);
+        if let Some(b) = cj.get("board") {
+            let c: BoardCase = serde_json::from_value(b.clone()).expect("board case");
+            replay_exit("C08", path, eval_board(&c).into_iter().map(|x| x.0).collect());
+        }
+        let c: Case = serde_json::from_value(cj).expect("case");
         replay_exit("C08", path, eval(&c).into_iter().map(|x| x.0).collect());
     }
     let ctx = Ctx::new("C08", tier);
@@ -601,6 +684,25 @@ pub fn run(tier: Tier, replay: Option<&str>) {
             ctx.tick(1);
         });
     }
+    // TX power commanded on boards with an antenna gain / their own ceiling (every region in both tiers)
+    let mut board_cases = vec![];
+    for region in REGIONS {
+        for (maxpw, gain) in [(14u8, 3i8), (14, 6), (22, -3), (30, 2), (10, 0)] {
+            for txp in 0..16u8 {
+                for prior_txp in [None, Some(0u8), Some(5), Some(7)] {
+                    board_cases.push(BoardCase { region: region.to_string(), maxpw, gain, txp, prior_txp });
+                }
+            }
+        }
+    }
+    total_cases += board_cases.len() as u64;
+    board_cases.par_iter().for_each(|c| {
+        for (sig, what) in eval_board(c) {
+            ctx.violation(sig, what, json!({"board": serde_json::to_value(c).unwrap()}), 1 + c.prior_txp.is_some() as usize);
+        }
+        nontrivial.fetch_add(1, Ordering::Relaxed);
+        ctx.tick(1);
+    });
     let coverage = json!({
         "states": total_cases,
         "transitions": ctx.evals() * 5,
@@ -608,11 +710,15 @@ pub fn run(tier: Tier, replay: Option<&str>) {
         "samples": samples,
         "evaluations": ctx.evals(),
         "distinct_nontrivial": nontrivial.load(Ordering::Relaxed),
-        "rule": "each case is a history on a fresh real device: base state (fresh / CFList join / sparse mask / extra channels / high data rate), 0-2 prior command downlinks, the judged downlink (FOpts or port 0), then uplinks and an acknowledging downlink. Judged downlinks: the full value domain of LinkADRReq (DR x TXPower x ChMaskCntl x mask patterns x NbTrans x RFU bit), LinkADRReq blocks, RXParamSetupReq (all 256 DLSettings x frequency set), RXTimingSetupReq (all 256), NewChannelReq (index x frequency set x DrRange bytes), DlChannelReq, DevStatusReq (requests with repeated answers also with an FPort 0 uplink before the repeat); k x DevStatusReq followed by two further requests (answer budget at every position); streams of requests with repeated answers that fill 13 / 14 / 15 (exactly) / 16 bytes; the same kinds of downlink after a prior downlink whose answers overflowed the budget; Class C deliveries (between TX and RX1, and while idle in rxc_listen with the answers of the preceding Class A downlink still unsent); port-0 requests in sessions whose downlink counter is beyond 16 bits. non-trivial = judged stream contains at least one request",
+        "rule": "each case is a history on a fresh real device: base state (fresh / CFList join / sparse mask / extra channels / high data rate), 0-2 prior command downlinks, the judged downlink (FOpts or port 0), then uplinks and an acknowledging downlink. Judged downlinks: the full value domain of LinkADRReq (DR x TXPower x ChMaskCntl x mask patterns x NbTrans x RFU bit), LinkADRReq blocks, RXParamSetupReq (all 256 DLSettings x frequency set), RXTimingSetupReq (all 256), NewChannelReq (index x frequency set x DrRange bytes), DlChannelReq, DevStatusReq (requests with repeated answers also with an FPort 0 uplink before the repeat); k x DevStatusReq followed by two further requests (answer budget at every position); streams of requests with repeated answers that fill 13 / 14 / 15 (exactly) / 16 bytes; the same kinds of downlink after a prior downlink whose answers overflowed the budget; Class C deliveries (between TX and RX1, and while idle in rxc_listen with the answers of the preceding Class A downlink still unsent); port-0 requests in sessions whose downlink counter is beyond 16 bits; boards (maximum power, antenna gain) in {(14,3),(14,6),(22,-3),(30,2),(10,0)} x all nine regions x every TXPower index 0..15 (alone and after an earlier commanded level 0 / 5 / 7): the conducted power of the next uplink is the acknowledged EIRP minus the antenna gain, capped by the board. non-trivial = judged stream contains at least one request",
         "regions": regions,
         "exhaustive": true,
     });
     let replayer = |cj: &Value| -> Vec<String> {
+        if let Some(b) = cj.get("board") {
+            let c: BoardCase = serde_json::from_value(b.clone()).unwrap();
+            return eval_board(&c).into_iter().map(|x| x.0).collect();
+        }
         let c: Case = serde_json::from_value(cj.clone()).unwrap();
         eval(&c).into_iter().map(|x| x.0).collect()
     };
